@@ -119,6 +119,9 @@ impl MemoryStruct {
         quote! {
             impl cameleon_impl::memory::prelude::MemoryRead for #ident {
                 fn read_raw(&self, range: std::ops::Range<usize>) -> cameleon_impl::memory::MemoryResult<&[u8]> {
+                    if range.start > range.end || range.end > self.raw.len() {
+                        return Err(cameleon_impl::memory::MemoryError::InvalidAddress);
+                    }
                     self.protection.verify_address_with_range(range.clone())?;
                     let access_right = self.protection.access_right_with_range(range.clone());
                     if !access_right.is_readable() {
@@ -139,7 +142,13 @@ impl MemoryStruct {
 
             impl cameleon_impl::memory::prelude::MemoryWrite for #ident {
                 fn write_raw(&mut self, addr: usize, buf: &[u8]) -> cameleon_impl::memory::MemoryResult<()> {
-                    let (start, end) = (addr, addr + buf.len());
+                    let start = addr;
+                    let end = addr
+                        .checked_add(buf.len())
+                        .ok_or(cameleon_impl::memory::MemoryError::InvalidAddress)?;
+                    if end > self.raw.len() {
+                        return Err(cameleon_impl::memory::MemoryError::InvalidAddress);
+                    }
                     let range = start..end;
                     self.protection.verify_address_with_range(range.clone())?;
                     let access_right = self.protection.access_right_with_range(range.clone());
